@@ -497,7 +497,7 @@ func init() {
 		Rule:       "complete enumeration of the MCP gate table: 31 known + 4 unknown tool names x role {read, operate, admin} x --enable-mutations x --enable-runtime-control x principal {absent, present, blank} (36 server configurations x 35 tools, plus the foreign-actor variant of every allowed mutating tool) against the reference gate written from internal/mcp/spec.md; tools/list = allowed set; refused => queue listing and config directory unchanged; exactly one audit record with all seven fields per mutating call; plus 9 config_apply / management variants (valid write, preview, parse/compile-invalid content, foreign and traversing paths, unknown keys/modes) over simfs with every touched path logged; distinct = (server configuration) and (apply variant) cases",
 		RealStub: map[string]string{
 			"mcp.Server (Serve loop, framing, callTool, gating, audit, config_apply, management tools, SQLite-mode queue tools)": "real, over in-memory pipes",
-			"MCP admin-proxy mode, write_and_reload, runtime-control beyond the gate": "not exercised (private http.Transport with a real dialer / real processes); allowed runtime-control tools fail their set-up check (no --pid-file) after the gate, so no process is started",
+			"MCP admin-proxy mode, write_and_reload, runtime-control beyond the gate":                                            "not exercised (private http.Transport with a real dialer / real processes); allowed runtime-control tools fail their set-up check (no --pid-file) after the gate, so no process is started",
 			"config file writes": "verifos (write-through + journal) during the apply variants",
 		},
 		Quick: 1, Thorough: 1,
